@@ -494,6 +494,8 @@ RULES = [
     ("R-C15-dispatch", 25, "dtype dispatch tables agree", rule_dispatch),
     ("R-C15-plumb", 10, "requested precision reaches conversion, library name and ctypes signature unchanged", _x3.rule_c15_plumb),
 ]
+from .. import refs as _refs
+RULES = RULES + [_refs.ref_rule('C15')]
 
 
 def run(tier="quick", replay=None):
